@@ -250,7 +250,7 @@ func ruleC14(c *Ctx) {
 		for _, b := range crc.Blocks {
 			for _, in := range b.Instrs {
 				rg, isR := in.(*ssa.Range)
-				if !isR || !mentions(rg.X, readsField("protocol/state.Checkpoint", "Rewards"), 3, nil) {
+				if !isR || !mentions(rg.X, c.fieldOrParam(crc, "protocol/state.Checkpoint", "Rewards"), 3, nil) {
 					continue
 				}
 				dr = "the loop over Checkpoint.Rewards has no failing exit"
